@@ -259,6 +259,8 @@ pub fn check_law(case: &Case20, ctx: &mut Ctx) -> Verdict {
     }
     let in_fixed_loop_region = m.node.backref_to_group_in_fixed_loop() || node2.backref_to_group_in_fixed_loop();
     let mut known_hit = None;
+    let strict_spans = !m.node.has_quantified_possibly_empty() && !node2.has_quantified_possibly_empty();
+    ctx.obs.label(if strict_spans { "compared:is_match+spans" } else { "compared:is_match-only" });
     for (i, input) in m.inputs.iter().enumerate() {
         let (x, y) = (&a.per_input[i], &b.per_input[i]);
         let (mx, my) = match (x.is_match.as_ref().unwrap(), y.is_match.as_ref().unwrap()) {
@@ -280,6 +282,14 @@ pub fn check_law(case: &Case20, ctx: &mut Ctx) -> Verdict {
                 continue;
             }
             return Verdict::Fail(Failure { sub: "is_match".into(), expected: format!("same answer from both spellings on {input:?}"), actual: format!("left {mx}, right {my}"), detail });
+        }
+        // span lists are compared where ordered choice is well defined on both sides (no quantifier over a body that
+        // can match the empty string: mainstream engines disagree there, cf. C02's strict clause); is_match always is
+        if !strict_spans {
+            if mx {
+                ctx.obs.label("input-matches");
+            }
+            continue;
         }
         let (sx, sy) = (spans_of(x), spans_of(y));
         if sx.as_ref().err().map(|e| e.as_str()) == Some("panic") || sy.as_ref().err().map(|e| e.as_str()) == Some("panic") {
@@ -360,6 +370,7 @@ impl Prop for C20 {
     fn guards(&self) -> Vec<Guard> {
         let mut g: Vec<Guard> = LAWS.iter().map(|l| Guard { label: format!("law:{l}"), of: "".into(), min_fraction: 0.005 }).collect();
         g.push(Guard { label: "different-operator-trees".into(), of: "".into(), min_fraction: 0.3 });
+        g.push(Guard { label: "compared:is_match+spans".into(), of: "".into(), min_fraction: 0.4 });
         g
     }
 }
